@@ -189,7 +189,7 @@ func poisons(p *prng.R, m *dyn.Model, g *gen.G, db *ref.DB) []poison {
 }
 
 func c02Child(r *ev.Run, batch int) {
-	schemas := r.N(3, 24)
+	schemas := r.N(3, 60)
 	txns := r.N(140, 600)
 	for si := 0; si < schemas; si++ {
 		p := prng.Derive(r.Seed, "C02", batch, si)
